@@ -249,27 +249,37 @@ func c32map(run *verifkit.Run, rng *verifkit.Rand, sample bool) {
 	atExpiry := false
 	next := 1
 	for st := 0; st < steps; st++ {
-		switch k := rng.Intn(10); {
-		case k < 3:
-			it := items[rng.Intn(len(items))]
-			m.Set(it, next)
-			val[it] = next
-			next++
-			exp[it] = clock.Now().Add(ttl)
-			hist = append(hist, c32step{Op: "set", Item: it})
-			kinds.WriteByte('a')
-		case k < 4:
-			it := items[rng.Intn(len(items))]
-			m.Delete(it)
-			delete(exp, it)
-			hist = append(hist, c32step{Op: "delete", Item: it})
-			kinds.WriteByte('r')
-		default:
-			d := c32advance(rng, clock.Now(), exp, ttl)
-			clock.Advance(d)
-			hist = append(hist, c32step{Op: "advance", Adv: int64(d)})
-			kinds.WriteByte('t')
+		// one to three operations between two rounds of queries: a key can leave and
+		// another arrive without any listing in between (same count, different keys)
+		nops := 1
+		if rng.Chance(0.4) {
+			nops = rng.Range(2, 3)
 		}
+		for op := 0; op < nops; op++ {
+			switch k := rng.Intn(10); {
+			case k < 3:
+				it := items[rng.Intn(len(items))]
+				m.Set(it, next)
+				val[it] = next
+				next++
+				exp[it] = clock.Now().Add(ttl)
+				hist = append(hist, c32step{Op: "set", Item: it})
+				kinds.WriteByte('a')
+			case k < 4:
+				it := items[rng.Intn(len(items))]
+				m.Delete(it)
+				delete(exp, it)
+				hist = append(hist, c32step{Op: "delete", Item: it})
+				kinds.WriteByte('r')
+			default:
+				d := c32advance(rng, clock.Now(), exp, ttl)
+				clock.Advance(d)
+				hist = append(hist, c32step{Op: "advance", Adv: int64(d)})
+				kinds.WriteByte('t')
+			}
+		}
+		hist = append(hist, c32step{Op: "query-all"})
+		kinds.WriteByte('q')
 		now := clock.Now()
 		order := rng.Perm(6)
 		ans := map[string]map[string]bool{}
